@@ -90,7 +90,11 @@ impl PosOracle for C05 {
 pub const RULE: &str = "library-driven exploration: actions = the moves the library generates, state key = the library's observable position; bounded trees below the curated roots, families with children, and the reachable closure (fixpoint = every history of any length) of KRK (quick) plus KQK and KPK-with-promotions (thorough). Every state: one king per side, side that just moved not attacked (reference attack test on the observable position), no pawn on rank 1/8, is_sane(), reference validity predicate. Every transition: castling rights only shrink, men and pawns per side never grow. distinct_nontrivial = judged transitions that change rights or material";
 
 pub fn run(tier: Tier) -> i32 {
-    let mut plan = with_ep_slider_family(standard_plan(tier, 2), tier);
+    let mut plan = standard_plan(tier, 1);
+    if tier == Tier::Quick {
+        // en-passant positions with one enemy slider anywhere, with every reply applied
+        plan.families.push((Box::new(crate::universe::PawnMovesFirst(crate::universe::EpFamily { extra: crate::universe::Extra::EnemySlider, pre_push: false })), 1));
+    }
     plan.closures.push(krk_closure());
     if tier == Tier::Thorough {
         plan.closures.push(kqk_closure());
